@@ -516,6 +516,56 @@ func stringsIntrinsic(name string, fn *ssa.Function) intrinsicFn {
 		}
 	// ---- net/http.Header as a plain map with canonical concrete keys
 	// ---- sync.Map as an association list per map object; reflect.TypeOf as an opaque, comparable type name
+	// ---- strings.Builder over its own buf field (the real methods go through unsafe)
+	case "(*strings.Builder).WriteByte", "(*strings.Builder).WriteString", "(*strings.Builder).Write", "(*strings.Builder).WriteRune",
+		"(*strings.Builder).String", "(*strings.Builder).Len", "(*strings.Builder).Reset", "(*strings.Builder).Grow":
+		op := name[strings.LastIndex(name, ".")+1:]
+		return func(x *Exec, f *ssa.Function, a []Value) Value {
+			p, _ := a[0].(*Pointer)
+			if p == nil {
+				x.abort("PANIC", "nil *strings.Builder")
+			}
+			st := f.Signature.Recv().Type().(*types.Pointer).Elem().Underlying().(*types.Struct)
+			bi := -1
+			for i := 0; i < st.NumFields(); i++ {
+				if st.Field(i).Name() == "buf" {
+					bi = i
+				}
+			}
+			fp := sub(p, bi)
+			var cur []*Term
+			if sl, _ := x.load(fp).(*SliceV); sl != nil {
+				cur = x.bytesOf(sl)
+			}
+			put := func(b []*Term) { x.store(fp, x.byteSlice(append(append([]*Term{}, cur...), b...))) }
+			switch op {
+			case "WriteByte":
+				put([]*Term{a[1].(*Term)})
+				return nilErr
+			case "WriteString":
+				b := x.toStrV(a[1]).B
+				put(b)
+				return tup(mkInt(int64(len(b))), nilErr)
+			case "Write":
+				b := x.bytesOf(a[1])
+				put(b)
+				return tup(mkInt(int64(len(b))), nilErr)
+			case "WriteRune":
+				r := a[1].(*Term)
+				if !r.IsConc() || r.C.(int64) >= 128 {
+					x.abort("UNSUPPORTED", "strings.Builder.WriteRune of a symbolic or non-ASCII rune")
+				}
+				put([]*Term{r})
+				return tup(mkInt(1), nilErr)
+			case "String":
+				return normStr(&StrV{B: append([]*Term{}, cur...)})
+			case "Len":
+				return mkInt(int64(len(cur)))
+			case "Reset":
+				x.store(fp, (*SliceV)(nil))
+			}
+			return nil
+		}
 	// ---- sync.Pool as a LIFO stash per pool object: Get hands back the most recently Put object (the schedule under
 	// which pooled objects are reused at once — the one that exposes aliasing of pooled buffers), else New()
 	case "(*sync.Pool).Get", "(*sync.Pool).Put":
